@@ -117,6 +117,10 @@ type pubNodeBase struct {
 
 	// msgChan is an internal channel where messages from msgFetcher are collected
 	msgChan chan *Message
+	// done is closed when the node stops running (before cleanup takes the
+	// lock), so a blocked InjectControlMessage can give up instead of holding
+	// the lock forever.
+	done chan struct{}
 }
 
 // Trigger sets up 2 goroutines, one that listens to the external error channel
@@ -145,6 +149,7 @@ func (n *pubNodeBase) Trigger(
 
 	n.running = true
 	n.msgChan = make(chan *Message)
+	n.done = make(chan struct{})
 	internalErrChan := make(chan error)
 
 	if externalErrChan != nil {
@@ -214,12 +219,21 @@ func (n *pubNodeBase) InjectControlMessage(ctx context.Context, msgType ControlM
 	select {
 	case <-ctx.Done():
 		return ctx.Err()
+	case <-n.done:
+		// The node stopped consuming messages while we were waiting. Without
+		// this case the send would block forever while holding the lock that
+		// cleanup needs, wedging both the caller and the node.
+		return cerrors.New("tried to inject control message but PubNode stopped running")
 	case n.msgChan <- &Message{controlMessageType: msgType, Record: r}:
 		return nil
 	}
 }
 
 func (n *pubNodeBase) cleanup(ctx context.Context, logger log.CtxLogger) {
+	// Signal a concurrent InjectControlMessage (which holds the lock while it
+	// waits to hand over its message) that nobody will receive it anymore.
+	close(n.done)
+
 	n.lock.Lock()
 	defer n.lock.Unlock()
 
